@@ -25,8 +25,8 @@ def check(ctx):
     ctx.run(rule_normaliser_frames, "C03.T2")
     ctx.run(S.rule_owner_writes_only, "C03.T3", rr)
     ctx.run(S.rule_every_stale_entry_rebuilt, "C03.T4", rr)
-    ctx.run(S.rule_ancestor_closure, "C03.T5", rr)
-    ctx.run(rule_pruning_preserves_paths, "C03.T5")
+    from .prunerules import rule_pruning_evaluated
+    ctx.run(rule_pruning_evaluated, "C03.T5", rr)
     ctx.run(S.rule_stale_check_sees_stored_nodes, "C03.T6", rr)
     ctx.run(E.rule_catch_all, "C03.T4", er)
     from .extra import rule_fresh_time_untouched
